@@ -145,7 +145,7 @@ func H_C08_positioning_step() {
 // (including zero).
 //
 //symgo:harness prop=C08 kernel=K1b-step-after-advance real=1
-//symgo:desc state constructed directly: CTM, line matrix and leading set by "cm BT Tf Tm TL" with symbolic real operands, then the text matrix overwritten with an arbitrary symbolic matrix (as left behind by any amount of shown text); one operator from {Td, TD, T*, ', "} (enumerated) with symbolic real operands (zero included); then Tj: the fragment origin is (0,0) x T(tx,ty) x Tlm x CTM of the reference interpreter. Floats as reals
+//symgo:desc state constructed directly: CTM, line matrix and leading set by "cm BT Tf Tm TL" with symbolic real operands, then the text matrix overwritten with an arbitrary symbolic matrix (as left behind by any amount of shown text); one operator from {Td, TD, T*, ', "} (enumerated) with symbolic real operands (zero included), or TD followed by T* (the leading TD sets, zero included, is the one T* uses); then Tj: the fragment origin is (0,0) x T(tx,ty) x Tlm x CTM of the reference interpreter. Floats as reals
 func H_C08_line_moves_from_advanced_position() {
 	c, t0, adv := vAnyMat(), vAnyMat(), vAnyMat()
 	lead := vAnyFloat()
@@ -160,7 +160,14 @@ func H_C08_line_moves_from_advanced_position() {
 	a, b := vAnyFloat(), vAnyFloat()
 	var op contentstream.Operation
 	shows := false
-	switch vAnyIntIn(0, 4) {
+	switch vAnyIntIn(0, 5) {
+	case 5:
+		// TD sets the leading to -ty (also when ty is zero) before it moves; the T* that follows uses that leading
+		vAssert("td-ok", e.processOperation(vOp("TD", core.Real(a), core.Real(b))) == nil)
+		ref.td(a, b)
+		ref.leading = -b
+		op = vOp("T*")
+		ref.td(0, -ref.leading)
 	case 0:
 		op = vOp("Td", core.Real(a), core.Real(b))
 		ref.td(a, b)
